@@ -119,6 +119,10 @@ type Options struct {
 	// library's in-memory Persistence behind the recording double),
 	// "filesystem" (mqtt.FileSystem on a scratch directory behind it)
 	StoreFlavour string
+	// FSMutate runs on the scratch directory of a filesystem-flavoured store
+	// after the initial content was written and before the session is made
+	// (stray entries next to the records)
+	FSMutate func(dir string)
 }
 
 // World is one process generation of a client together with its environment.
@@ -282,6 +286,9 @@ func New(t TB, o Options) *World {
 		flavour = "memory"
 	}
 	w.Store = newStore(w, o.Store, inner, flavour)
+	if w.storeDir != "" && o.FSMutate != nil {
+		o.FSMutate(w.storeDir)
+	}
 	w.dialDefault = DialOutcome{Kind: DialOK}
 	if o.NoAutoConnack {
 		w.ConnackPol = ConnackPolicy{Kind: ConnackHold}
